@@ -448,6 +448,10 @@ def class_doc(rnd, c, envd, inh, ku_extras):
             continue
         key = reg_key(inh, c, k)
         r = rnd.random()
+        m = c.get("mapper")
+        if isinstance(m, dict) and any(kk == k and mv[0] == "fun" for kk, mv in m["dict"]):
+            r = 1.0       # a FunctionCall-mapped field has no fall-back to its own name (function mappers are
+            #               outside the model; only the key the mappers produce is used for such a field)
         if "." in key:
             # dotted path of the mapper: nest the value
             parts = key.split(".")
